@@ -59,6 +59,21 @@ static void scenario() {
             for (int i = 0; i < 3; i++) { if (acc[i] && cnt[i] != 1) vf_fail("task_group::wait returned but accepted unit %d ran %d times (a run() whose functor copy threw came before)", i, cnt[i]); if (!acc[i] && cnt[i]) vf_fail("unit %d of a failed run() was executed", i); }
             { Fun f(3); g_fthrowat = 0; tg.run(f); tg.wait(); if (cnt[3] != 1) vf_fail("second wait returned but unit 3 ran %d times", cnt[3]); }
             if (threw != 1) vf_fail("%d run() calls threw, expected 1", threw); }); vf_window(0); }
+    else if (streq(k, "abandon")) { // a worker leaves the arena (recalled for a higher-priority arena) with spawned tasks still in its pool: a later wait from another slot must find them
+        int nchild = (int)vf_param_int("children", 3);
+        tbb::task_arena A(2, 1, tbb::task_arena::priority::normal), B(2, 1, tbb::task_arena::priority::high); A.initialize(); B.initialize();
+        static int spawned, release_x, blocker_started, finish, x_on; spawned = release_x = blocker_started = finish = 0; x_on = -1;
+        tbb::task_group tg;
+        vf_window(1);
+        A.execute([&] { tg.run([&] { x_on = vf_self(); for (int i = 0; i < nchild; i++) tg.run([&, i] { unit(i); }); spawned = 1; for (int j = 0; j < 4000 && !release_x; j++) vf_yield(); }); });
+        for (int j = 0; j < 4000 && !spawned; j++) vf_yield();
+        if (!spawned) { tg.wait(); vf_fail("the spawned task was not taken by the worker"); }
+        B.enqueue([&] { blocker_started = 1; for (int j = 0; j < 20000 && !finish; j++) vf_yield(); });
+        release_x = 1;
+        for (int j = 0; j < 4000 && !blocker_started; j++) vf_yield();
+        int left_behind = 0; for (int i = 0; i < nchild; i++) if (!cnt[i]) left_behind++;
+        A.execute([&] { tg.wait(); covered(nchild, "task_group::wait (entered after the spawning worker had left the arena)"); });
+        finish = 1; vf_window(0); vf_outcome("left=%d started=%d ", left_behind, blocker_started); }
     else vf_fail("unknown kind");
     vf_liveness(0);
     vf_outcome("by:"); for (int i = 0; i < nunits; i++) vf_outcome("%d", who[i]);
